@@ -94,6 +94,9 @@ Specials ==
        { CSE0(KI(0)), CSE0(K(FltV(0, 1))), CSE0(K(BoolV(FALSE))), CSE0(N("Tup", << >>)),
          N("Sum", << x, CSE0(KI(0)) >>), N("Sum", << y, CSE0(x) >>), CSE0(CSE0(x)),
          N("Product", << CSE0(N("Tup", << >>)), x >>),
+         CSE0(B("Quotient", x, y)), CSE0(N("Product", << x, y >>)), CSE0(N("Sum", << x >>)),
+         N("Sum", << z, CSE0(B("Quotient", x, z)) >>), CSE0(N("Product", << x, uu >>)),
+         CSE0(B("Remainder", N("Product", << y, x >>), z)),
          N("List", << x, y >>), N("List", << y, KI(2) >>), N("Sum", << x, N("List", << y >>) >>),
          Call(ff, << N("List", << x >>), y >>), B("Sub", tt, N("List", << KI(1) >>)),
          N("Tup", << N("List", << >>), x >>),
@@ -115,12 +118,12 @@ XY == N("Product", << x, y >>)
 T3 == N("Tup", << x, y, KI(2) >>)
 
 \* the first NSQ single-entry maps are the quick tier's
-NSQ == 16
+NSQ == 17
 Singles == <<
   NX(y), NX(X1), NX(KI(0)), NX(uu), VX(y), VX(XY), NY(x), VY(KI(2)),
   ES1(x), ExprEntry(B("Sub", tt, x), y), ExprEntry(B("Sub", tt, TRUEK), z),
   ELP(y), ELP(N("Sum", << LP, KI(1) >>)), NameEntry("f", gg), NameEntry("t", T3),
-  NX(B("Quotient", y, z)),
+  NX(B("Quotient", y, z)), NameEntry("o", V("o2")),
   NX(S1), ES1(KI(0)), NameEntry("b", Cmp(x, "<", y)), VX(K(BoolV(FALSE))),
   NameEntry("z", x), NameEntry("o", V("o")), ExprEntry(Look(oo, "q"), x) >>
 
@@ -168,7 +171,7 @@ Next == /\ NHoles(tree) > 0
         /\ UNCHANGED sg
         /\ IF Mode = "exh"
            THEN (\E s \in PoolFor(FirstHoleTy(tree), fuel = 1) : tree' = FillFirst(tree, s)) /\ fuel' = fuel
-           ELSE (\E s \in RandPool : tree' = FillFirst(tree, s))
+           ELSE tree' = FillFirst(tree, RandomElement(RandPool))   \* one draw per step
                 /\ fuel' = (IF fuel > 0 THEN fuel - 1 ELSE 0)
 
 Complete == NHoles(tree) = 0
@@ -212,9 +215,10 @@ ImplMatches ==
                 \/ Dev_CSEZeroFold(tree, sg)
 
 \* the positions of MustSame at which the transcription does not return the input object
-BadIdent == { p \in MustSame(tree, sg) : ~Impl(At(tree, p), sg).same }
+BadIdent == LET same == ImplSameSet(tree, sg) IN
+            { p \in MustSame(tree, sg) : Prefixes(p) \cap same = {} }
 ImplIdentity ==
-    Complete => \A p \in BadIdent : DevOfSubtree(At(tree, p), sg) # "none"
+    Complete => \A p \in BadIdent : DevAt(tree, sg, p) # "none"
 
 AllTrees == SubExprs(tree) \cup
             UNION { SubExprs(sg[i].val) \cup (IF sg[i].kf = "expr" THEN SubExprs(sg[i].key) ELSE {})
@@ -234,7 +238,7 @@ ValueBreaks(res) ==
         JudgeVal(LemmaRhs(tree, sg, Envs[i]), LemmaLhs(res, Envs[i]),
                  LemmaRhsTree(tree, sg), EnvOf(sg, Envs[i])) \notin {"OK", "SKIP"}
 Classes ==
-    LET devs == { DevOfSubtree(At(tree, p), sg) : p \in BadIdent }
+    LET devs == { DevAt(tree, sg, p) : p \in BadIdent }
         IdentityBreaks(dev) == dev \in devs
     IN
     (IF PlainRaises(tree, sg) THEN {"plain-raises/Unhashable"} ELSE {}) \cup
